@@ -63,11 +63,19 @@ def lake_build(targets, timeout=3000):
     return p.returncode == 0, (p.stdout + p.stderr)
 
 
+def prop_modules(pid: str):
+    """Props/<pid>.lean plus continuation files Props/<pid><Letters>.lean (e.g. C05Inv.lean)."""
+    d = os.path.join(LEAN, "PynetVerif", "Props")
+    return sorted(f[:-5] for f in os.listdir(d) if re.fullmatch(pid + r"[A-Za-z]*\.lean", f))
+
+
 def theorems_of(pid: str):
-    """Property theorems = every `theorem <pid>_*` in Props/<pid>.lean."""
-    path = os.path.join(LEAN, "PynetVerif", "Props", f"{pid}.lean")
-    src = _strip_comments(open(path).read())
-    return re.findall(r"^\s*theorem\s+(" + pid + r"_\w+)", src, flags=re.M)
+    """Property theorems = every `theorem <pid>_*` in Props/<pid>*.lean."""
+    out = []
+    for m in prop_modules(pid):
+        src = _strip_comments(open(os.path.join(LEAN, "PynetVerif", "Props", m + ".lean")).read())
+        out += re.findall(r"^\s*theorem\s+(?:PynetVerif\.)?(" + pid + r"_\w+)", src, flags=re.M)
+    return out
 
 
 def forbidden_tokens():
@@ -92,7 +100,9 @@ def audit(pid: str, names):
     os.makedirs(d, exist_ok=True)
     path = os.path.join(d, f"{pid}.lean")
     with open(path, "w") as f:
-        f.write(f"import PynetVerif.Props.{pid}\nopen PynetVerif\n")
+        for m in prop_modules(pid):
+            f.write(f"import PynetVerif.Props.{m}\n")
+        f.write("open PynetVerif\n")
         for n in names:
             f.write(f"#print axioms {n}\n")
     p = subprocess.run(["lake", "env", "lean", path], cwd=LEAN, capture_output=True, text=True, timeout=1800)
@@ -229,7 +239,7 @@ def prove(ctx, mod):
     ok_drv, log_drv = lake_build(["pvdriver"])
     if not ok_drv:
         raise ToolFailure("pvdriver does not build:\n" + log_drv[-3000:])
-    ok, log = lake_build([f"PynetVerif.Props.{pid}"])
+    ok, log = lake_build([f"PynetVerif.Props.{m}" for m in prop_modules(pid)])
     names = theorems_of(pid)
     ctx.proof["obligations"] = len(names)
     ctx.proof["build_ok"] = ok and gen_err is None
@@ -258,7 +268,7 @@ def prove(ctx, mod):
     ctx.proof["discharged"] = 0 if forb else discharged
     if ctx.tier == "thorough" and not ctx.proof["broken"]:
         p = subprocess.run(
-            ["lake", "env", "leanchecker", f"PynetVerif.Props.{pid}"], cwd=LEAN, capture_output=True, text=True, timeout=3000
+            ["lake", "env", "leanchecker", *[f"PynetVerif.Props.{m}" for m in prop_modules(pid)]], cwd=LEAN, capture_output=True, text=True, timeout=3000
         )
         ctx.extra["leanchecker_exit"] = p.returncode
         if p.returncode != 0:
